@@ -10,7 +10,7 @@ from decimal import Decimal
 from lib import heap, monitors
 
 ID = 'C03'
-TECHNIQUE = 'runtime monitor: wrappers on the element-adding mutators + max-length walk of every node result with first-cause attribution'
+TECHNIQUE = 'runtime monitor: wrappers on the element-adding mutators + max-length walk of every node result with first-cause attribution; every table entry on full containers; coverage-guided programs (atheris)'
 CAP = 10000
 RULE = ('(A) sequences of push / insert / index assignment / compound index assignment (call, method and pipe spelling, extra arguments, keys that are new, existing, '
         'non-string, decimal) on host lists and dicts of length 0, 1, 9998, 9999, 10000, 10001 (string keys and integer keys), interleaved with pop/del/remove; (B) programs that '
